@@ -46,6 +46,14 @@ type EP struct {
 	NoVerify     bool     `json:"noverify,omitempty"` // InsecureSkipVerify
 	RootCA       int      `json:"root,omitempty"`     // 0 none, 1 CA1, 2 CA2
 	KeyLog       bool     `json:"-"`
+	// CertsBefore: certificate fixtures configured in front of Cert (a server with several certificates,
+	// the one for the requested name is picked)
+	CertsBefore []string `json:"certsbefore,omitempty"`
+	// CertCallback (client): Cert is not configured statically but returned by a GetClientCertificate
+	// callback that offers a certificate of another CA first and uses CertificateRequestInfo.SupportsCertificate
+	CertCallback bool `json:"certcb,omitempty"`
+	// ClientCAsMulti (server, with ClientCAs): the pool holds a further CA in front of CA1
+	ClientCAsMulti bool `json:"ccasmulti,omitempty"`
 }
 
 // MemStore is a session store that records every call.
@@ -117,6 +125,19 @@ type Env struct {
 	ExtraClient []dtls.ClientOption
 	ExtraServer []dtls.ServerOption
 	Log         *LogSink
+	// AcceptableCAs seen by the client's GetClientCertificate callback (EP.CertCallback), per call
+	criMu         sync.Mutex
+	AcceptableCAs [][][]byte
+}
+
+func (e *Env) noteCRI(cas [][]byte) {
+	e.criMu.Lock()
+	defer e.criMu.Unlock()
+	cp := make([][]byte, len(cas))
+	for i := range cas {
+		cp[i] = bytes.Clone(cas[i])
+	}
+	e.AcceptableCAs = append(e.AcceptableCAs, cp)
 }
 
 // NewEnv creates an empty environment.
@@ -268,7 +289,30 @@ func (ep *EP) shared(env *Env, role string) ([]dtls.Option, error) {
 		if !ok {
 			return nil, ErrBadFixture
 		}
-		o = append(o, dtls.WithCertificates(c))
+		if ep.CertCallback && role == "C" {
+			decoy, _ := GetCreds().Leaf("client-untrusted")
+			cands := []tls.Certificate{decoy, c}
+			o = append(o, dtls.WithGetClientCertificate(func(cri *dtls.CertificateRequestInfo) (*tls.Certificate, error) {
+				env.noteCRI(cri.AcceptableCAs)
+				for i := range cands {
+					if cri.SupportsCertificate(&cands[i]) == nil {
+						return &cands[i], nil
+					}
+				}
+
+				return new(tls.Certificate), nil
+			}))
+		} else {
+			list := make([]tls.Certificate, 0, len(ep.CertsBefore)+1)
+			for _, n := range ep.CertsBefore {
+				b, ok := GetCreds().Leaf(n)
+				if !ok {
+					return nil, ErrBadFixture
+				}
+				list = append(list, b)
+			}
+			o = append(o, dtls.WithCertificates(append(list, c)...))
+		}
 	}
 	if ep.PSK != "" {
 		key := []byte(ep.PSK)
@@ -373,7 +417,11 @@ func (ep *EP) ServerOptions(env *Env) ([]dtls.ServerOption, error) {
 		out = append(out, dtls.WithClientAuth(dtls.ClientAuthType(ep.ClientAuth)))
 	}
 	if ep.ClientCAs {
-		out = append(out, dtls.WithClientCAs(GetCreds().CA1.Pool))
+		pool := GetCreds().CA1.Pool
+		if ep.ClientCAsMulti {
+			pool = GetCreds().ClientPoolMulti
+		}
+		out = append(out, dtls.WithClientCAs(pool))
 	}
 	if ep.SkipHelloVfy {
 		out = append(out, dtls.WithInsecureSkipVerifyHello(true))
